@@ -330,6 +330,56 @@ def bound_value_case(rec, vname, vsrc, wkind, depth):
                           exp, o.outcome)
 
 
+def class_let_case(rec, variant, wkind, depth):
+    """The nest sits in a class body and reads a `let` member (or a kept field) of the class at the
+    bottom -- in inline Python, as a repetition count, in a where predicate."""
+    rng = rec.rng
+    kinds = []
+    for _ in range(depth):
+        k = wkind
+        if k == 'mix':
+            k = rng.choice(['seq', 'group', 'opt', 'zzalt', 'leftempty'])
+        kinds.append(k)
+    T = ('re', '[ab]', False)
+    D = ('apply', ('re', '[0-2]', False), ('py', 'int'))
+    member = 'let' if variant.startswith('let') else 'field'
+    if variant.endswith('read'):
+        first, e = (member, 'm', T), ('seq', [T, ('py', "('m', m)")])
+    elif variant.endswith('count'):
+        first, e = (member, 'm', D), ('rep', ('str', 'a'), ('name', 'm'), ('name', 'm'))
+    else:
+        first, e = (member, 'm', T), ('where', T, ('py', 'lambda w: w != m'))
+    for k in kinds:
+        e = wrap_once(k, e, rng)
+    G = dict(name=None, extends=None, stmts=[('rule', 'start', None, ('star', ('ref', 'Holder'))),
+                                             ('class', 'Holder', None, [first, ('field', 'v', e), ('field', 'end', ('opt', ('str', ';')))])])
+    case = dict(kind='nesting-class-let', variant=variant, wrapper=wkind, depth=depth, kinds=''.join(k[0] for k in kinds))
+    d = gast.render_grammar(G, gast.Style(parens='min'))
+    r = observe.compile_grammar(d)
+    rec.case()
+    if r[0] != 'ok':
+        rec.violation('nesting-class-let:grammar-error:%s' % (r[1] if r[0] != 'timeout' else 'nonterm'), 'Grammar() of a deeply nested description',
+                      dict(case, desc=d[:300]), 'module', r)
+        return
+    g = r[1]
+    chain = refpeg.build_chain([G])
+    texts = ['ab', 'aa', 'ba;ab', 'a', ''] if not variant.endswith('count') else ['2aa', '1a;0', '0', '2a', '1aa', '']
+    for text in texts:
+        try:
+            exp, model = refpeg.expected(chain, text, None, 0, True, budget=400000)
+        except (refpeg.IllFormed, refpeg.ModelBudget, RecursionError):
+            rec.drop()
+            continue
+        o = observe.observe(g, text)
+        rec.case()
+        rec.count('class_let_calls')
+        if depth >= 10:
+            rec.nontrivial(('class-let', variant, wkind, depth, text))
+        if not observe.same_outcome(exp, o.outcome):
+            rec.violation('nesting-class-let:%s->%s' % (observe.outcome_class(exp), observe.outcome_class(o.outcome)),
+                          'reference model on a nest in a class body reading a class member', dict(case, text_repr=repr(text), desc=d[:200]), exp, o.outcome)
+
+
 def twin_case(rec, iname, e0, wkind, depth):
     """One grammar holds the nest AND, as arguments of a template, every sub-nest of it: the text of
     whichever sub-expression the generator moves into a helper function also occurs as an argument
@@ -555,6 +605,13 @@ def run_shard(rec):
             idx += 1
             if rec.mine(idx) and not rec.out_of_time():
                 nesting_case(rec, 'bound-name', ('str', 'a'), {}, [], wkind, depth, False, bound=True)
+    # nests in class bodies reading a let member / a field of the class
+    for variant in ('let-read', 'let-count', 'let-where', 'field-read', 'field-count'):
+        for wkind in ('seq', 'opt', 'mix'):
+            for depth in ((1, 10, 14, 15, 16, 17, 18, 19, 20, 25, 35) if quick else list(range(1, 45))):
+                idx += 1
+                if rec.mine(idx) and not rec.out_of_time():
+                    class_let_case(rec, variant, wkind, depth)
     # bound names holding unhashable values / values equal to a value of another type
     for vname, vsrc in BOUND_VALUES:
         for wkind in ('seq', 'opt', 'mix'):
@@ -587,6 +644,8 @@ def run_shard(rec):
 
 def replay(rec, rep):
     case = rep['case']
+    if case.get('kind') == 'nesting-class-let':
+        return class_let_case(rec, case['variant'], case['wrapper'], case['depth'])
     if case.get('kind') == 'nesting-bound-value':
         return bound_value_case(rec, case['value'], dict(BOUND_VALUES)[case['value']], case['wrapper'], case['depth'])
     if case.get('kind') == 'nesting-twin':
